@@ -146,6 +146,7 @@ def run_verus(unit_name, tier, seed):
             "verification_failure": is_verif and not is_rlimit,
             "rlimit": is_rlimit,
             "all_spans": [(s["line_start"], s.get("label")) for s in spans],
+            "failed_clause": next((s["text"][0]["text"].strip() for s in spans if (s.get("label") or "").startswith("failed precondition") and s.get("text")), None),
             "rendered": d.get("rendered", "")[:3000],
         })
     out["diags"] = diags
@@ -153,6 +154,19 @@ def run_verus(unit_name, tier, seed):
     out["trusted"] = vxunit.trusted_scan(meta["path"])
     out["wall_s"] = time.time() - t0
     return out
+
+
+SAFETY_MSG = ("possible arithmetic underflow/overflow", "possible division by zero", "possible bit shift", "possible truncation")
+
+
+def is_safety_failure(d):
+    m = d["message"]
+    if any(m.startswith(x) for x in SAFETY_MSG):
+        return True
+    if m.startswith("precondition not satisfied"):
+        fc = d.get("failed_clause") or ""
+        return "@env" not in fc
+    return False
 
 
 def func_result(res, fn_name):
@@ -240,14 +254,22 @@ def cmd_check(args):
                 lemma_fail.append(d)
         # obligations from extracted items
         for it in meta["extracted"]:
-            if pid not in it["props"]:
+            modes = {p.split(":")[0]: (p.split(":")[1] if ":" in p else "full") for p in it["props"]}
+            if pid not in modes:
                 continue
-            name = f"{un}::{it['fn_name']}"
+            safety_only = modes[pid] == "safety"
+            name = f"{un}::{it['fn_name']}" + (" [no-abort obligations]" if safety_only else "")
             fr = func_result(res, it["fn_name"])
             has_body = any(True for _ in fr)
             ms = sum(v["ms"] for _, v in fr)
             fails = fail_by_item.get(it["idx"], [])
-            ok = (not fails) and all(v["success"] for _, v in fr)
+            if safety_only:
+                # only abort-relevant obligations count: overflow, division by zero, preconditions of callees
+                # (unwrap/expect/vx_panic/index/...) except clauses marked `@env` (existence assumptions about the calendar)
+                fails = [d for d in fails if is_safety_failure(d)]
+                ok = not fails
+            else:
+                ok = (not fails) and all(v["success"] for _, v in fr)
             fn_under_contract.append({
                 "function": f"{it['file']}:{it['src_lines'][0]}-{it['src_lines'][1]} {it['sel']}",
                 "tier": "V" if has_body else "V(signature contract only: required trait method, assumed for every implementor)",
